@@ -17,7 +17,8 @@ func init() {
 	Register(&Spec{
 		ID: "C13",
 		Explanation: "Decides four structural clauses of the packed codec in internal/packed: (R1) in the one-shot decoder, the count returned by a copy from the remaining input into a destination sized from an input byte reaches a comparison (a short literal run is detected, as io.ReadFull does in the streaming sibling); (R2) the number of words passed to allocWords is the constant 1 or a single input byte, and Reader.zeroes/literal are set only from a single byte or decremented: output grows by at most 255 words per count byte; (R3) Pack, Unpack and Reader.ReadWord all dispatch on exactly the tags 0x00 and 0xff, and each place where a count byte or a tagged byte is missing yields (or latches) io.ErrUnexpectedEOF; (R4) every index into the input in Unpack and ReadWord is bounded by an interval analysis of the index against a dominating length test. Does NOT decide unpack(pack(x)) = x, run-length limits as values, or equivalence of the two decoders.",
-		Run: runC13,
+		ExtraConfigs: true,
+		Run:          runC13,
 	})
 }
 
